@@ -655,6 +655,7 @@ def _depth_step(prog, f):
     dn = _depth_name(f)
     # recursive form: some call in f or its lambdas passes `depth + 1` to f's own template
     fam = [f] + prog.lambdas_of(f)
+    seen_plus_one = False
     for g in fam:
         for c in calls_in(g.body):
             t = callee_func(prog, g, c)
@@ -664,8 +665,11 @@ def _depth_step(prog, f):
                     a = c.call_args()[pnames.index(dn)]
                     if a is not None and a.kind == 'BinaryOperator' and a.op == '+' and \
                             member_path(a.kids[0]) == dn and const_eval(a.kids[1]) == 1:
-                        return '+1'
+                        seen_plus_one = True      # ... and every other recursive call must agree
+                        continue
                     return a.text(3) if a is not None else '?'
+    if seen_plus_one:
+        return '+1'
     # agenda form: `++depth` (or depth + 1) once, dominated by the check, and children are
     # pushed with `depth`
     incs = [n for n in f.body.walk() if n.kind == 'UnaryOperator' and n.op == '++' and
